@@ -176,22 +176,29 @@ impl TransitivityProof {
 }
 
 // replaces 'private' slots with enumerated slot-names, like a shape.
-// The numbering only depends on the private slots themselves (in order of their first occurrence), not on
+// The numbering only depends on the binders themselves (in order of their first occurrence), not on
 // how many public slots occur before them: two congruent nodes can invoke child classes that have a
-// different number of (redundant) slots.
+// different number of (redundant) slots.  Every binder gets a number of its own, also when two sibling
+// binders use the same name: the weak shape tells the binders apart, its numbers are made consecutive.
 pub(crate) fn alpha_normalize<L: Language>(n: &L) -> L {
-    let mut c = n.clone();
+    // in the weak shape every number belongs either to one binder (and its bound occurrences) or to one public slot
+    let (mut c, bij) = n.weak_shape();
+    let private: SmallHashSet<Slot> = c.private_slot_occurrences().into_iter().collect();
     let mut renaming = SlotMap::new();
-    for x in c.private_slot_occurrences_mut() {
-        let y = match renaming.get(*x) {
-            Some(y) => y,
-            None => {
-                let y = Slot::numeric(renaming.len() as u32);
-                renaming.insert(*x, y);
-                y
-            }
-        };
-        *x = y;
+    for x in c.all_slot_occurrences_mut() {
+        if private.contains(x) {
+            let y = match renaming.get(*x) {
+                Some(y) => y,
+                None => {
+                    let y = Slot::numeric(renaming.len() as u32);
+                    renaming.insert(*x, y);
+                    y
+                }
+            };
+            *x = y;
+        } else {
+            *x = bij[*x];
+        }
     }
     if CHECKS {
         let public: SmallHashSet<_> = c.public_slot_occurrences().into_iter().collect();
